@@ -257,6 +257,9 @@ func Check(prop string, o Options) int {
 				confirmed = out.Outcome == "assert:"+pd.v.ID
 			case pd.v.Kind == "trap" || pd.v.Kind == "panic":
 				confirmed = strings.HasPrefix(out.Outcome, "panic:")
+			case pd.v.Kind == "deadlock" && out.Outcome == "blocked":
+				// the harness itself never comes back, natively as well
+				confirmed = true
 			case pd.v.Kind == "pool" || pd.v.Kind == "deadlock":
 				// ghost facts have no native observable unless the harness
 				// turns them into assertions; they are reported as engine
